@@ -434,8 +434,18 @@ def run(ctx):
         hists = random.Random(ctx.seed).sample(hists, 500)
     ctx.extra["reachable_states_replayed"] = len(hists)
     all_probes = list(ops)
-    for p in hists:
-        check_history(ctx, ops, p["hist"], all_probes, spec_f3=set(p["f3"]))
+    # fixed histories, whatever the sample above holds: a name resolved BEFORE a module defining it again is imported
+    # (the freshness of the index), resets, failed calls first
+    # the probes run one after the other on the same shared instances, so each sees the ones before it: two orders (the
+    # operations added last come first / come last), alternating over the histories, both for the fixed ones
+    k0 = all_probes.index("serA")
+    alt_probes = all_probes[k0:] + all_probes[:k0]
+    for h in (["parseNoClass", "import"], ["decNoClass", "import"], ["parseXsi", "import"], ["serOther", "import"], ["parseUnknown", "import"],
+              ["parseNoClass", "import", "reset"], ["import", "parseNoClass"], ["parseBroken", "parseNoClass", "import"], ["parseMalformed", "parseA"]):
+        check_history(ctx, ops, h, all_probes)
+        check_history(ctx, ops, h, alt_probes)
+    for i, p in enumerate(hists):
+        check_history(ctx, ops, p["hist"], all_probes if i % 2 == 0 else alt_probes, spec_f3=set(p["f3"]))
     if hists:
         ctx.sample({"kind": "tlc-history", "history": hists[len(hists) // 2]["hist"], "probes": all_probes})
     # random longer histories, incl. failed calls, import and reset
